@@ -1036,6 +1036,34 @@ pub struct FileOffset { pub start: u64 }
 //@item src/mmap/unix.rs :: - :: pub struct MmapRegion<B = \(\)> :: pubfields
 //@enditem
 
+/// libc::munmap(addr, len) (trusted boundary).  Precondition = C12's "unmapped exactly": one whole mapping,
+/// from its first byte over its whole length; the pointer is passed by `&mut` so that the effect is
+/// visible (afterwards the mapping is gone) and an owner's Drop can be required to establish it.
+#[verifier::external_body]
+pub fn libc_munmap(p: &mut Ptr, len: usize) -> (r: i32)
+    requires
+        old(p).lo@ == old(p).a, // [C12]
+        old(p).hi@ == old(p).a + len, // [C12]
+        old(p).live@, // [C12]
+    ensures !final(p).live@, final(p).a == old(p).a, final(p).lo == old(p).lo, final(p).hi == old(p).hi,
+{ unimplemented!() }
+impl<B> MmapRegion<B> {
+    /// an OWNED region holds exactly one whole live mapping of `size` bytes starting at `addr`
+    /// (established by MmapRegionBuilder::build - K-region's subject)
+    pub open spec fn owns_mapping(&self) -> bool {
+        self.addr.lo@ == self.addr.a && self.addr.hi@ == self.addr.a + self.size && self.addr.live@
+    }
+//@fn src/mmap/unix.rs :: impl<B> Drop for MmapRegion<B> :: drop :: tags=C12,C07 :: id=unix::MmapRegion::drop
+//@sub libc::munmap\(self\.addr as \*mut libc::c_void, => libc_munmap(&mut self.addr,
+//@spec
+    requires old(self).owned ==> old(self).owns_mapping(),
+    ensures
+        old(self).owned ==> !final(self).addr.live@, // [C12]
+        !old(self).owned ==> final(self).addr == old(self).addr, // [C12]
+//@end
+//@canary never_unmaps :: if self\.owned => if self.owned && self.size == 0
+//@endfn
+}
 impl<B: Bitmap> MmapRegion<B> {
     /// what a successful mmap(size) gives the region (assumed, unsafe root): `size` mapped bytes at addr
     pub open spec fn wf(&self) -> bool {
